@@ -144,7 +144,14 @@ def run_check(tier, seed):
         r.shuffle(thms)
         thms = thms[:45]
     n_steps = n_states = 0
+    import time
+    t_replay = time.time()
+    if tier != 'quick':
+        r.shuffle(thms)                     # so that a time budget does not always cut the same theories
     for thy, item in thms:
+        if tier != 'quick' and time.time() - t_replay > 1500:
+            run.stat('replay_budget_reached')
+            break
         try:
             state = init_state(thy, item)
         except RecursionError:
